@@ -198,6 +198,23 @@ pub fn c11(o: &Opts) -> Outcome {
         cases += recs.len() as u64;
         for kind in KINDS { if let Some(w) = with_kind(kind, &recs, || c11_batch(&recs, 8, 2)) { return Outcome { cases, witness: Some(w) }; } }
     }
+    // long records with homopolymer runs across the multiples of 512 and of 1000: a trace computed block-wise, or
+    // from a bounded look-back, restarts the midpoint recursion there and differs once a run outlasts the look-back
+    {
+        let mut st = 0x9e3779b97f4a7c15u64;
+        for len in [1500usize, 4097, 4300, 8200, 20000] {
+            let mut s: Vec<u8> = (0..len).map(|_| { st ^= st << 13; st ^= st >> 7; st ^= st << 17; b"ACGT"[(st >> 33) as usize & 3] }).collect();
+            let mut marks: Vec<usize> = (512..len).step_by(512).collect();
+            marks.extend((1000..len).step_by(1000));
+            for (bi, &mark) in marks.iter().enumerate() {
+                let b = b"ACGT"[(mark / 512 + mark / 1000) % 3 + (bi & 1)];
+                let run = 70 + 37 * (bi % 7);
+                for p in mark.saturating_sub(run / 2)..(mark + run / 2).min(len) { s[p] = b; }
+            }
+            cases += 1;
+            if let Some(w) = c11_batch(&[s], 8, 2) { return Outcome { cases, witness: Some(w) }; }
+        }
+    }
     // rejection among ordinary records, for several worker counts
     for threads in [1usize, 2, 4] {
         let recs: Vec<Vec<u8>> = vec![b"ACGT".to_vec(), b"GGTTA".to_vec(), b"ACGTNACGT".to_vec(), b"TTT".to_vec()];
